@@ -18,17 +18,20 @@ Everything is a pure function of the descriptor.  Every per-halo attribute is a
 the fixture) with an attribute-specific offset, so a row that ends up at the wrong
 place - or a column that is swapped with another column - cannot alias to the right answer.
 
+`remove_files(root)` deletes every file below root (directories stay for the next case).
 `build(desc, root)` writes the files and returns a `Fixture` holding the arrays *as
 constructed* (the reference; it is never read back from disk).
 """
 import os
+import shutil
 
 import numpy as np
 
 SEED_NAME = 'seed600_abacushod_oldfenv'
+SIM_NAME = 'AbacusVerif_c000_ph000'
 PRIMARY_Z = [0.1, 0.5, 0.8, 1.1]
 SECONDARY_Z = [0.575, 0.95]
-ORDERS = ['increasing', 'decreasing', 'reversed', 'interleaved', 'shuffled', 'slab-sorted-shuffled']
+ORDERS = ['increasing', 'decreasing', 'reversed', 'interleaved', 'shuffled', 'slab-sorted-shuffled', 'explicit']
 
 # attribute slots (each gets its own 4096-wide value band)
 _SLOT = {
@@ -162,7 +165,12 @@ def _assign(desc, nh, rng):
             out[s % ns].append(k)
             s += 1
         return out
-    perm = [int(v) for v in rng.permutation(H)]
+    if order == 'explicit':  # the descriptor lists the rank of the id stored at each file position
+        perm = [int(v) for v in desc['perm']]
+        if sorted(perm) != keys:
+            raise ValueError('perm is not a permutation of range(H)')
+    else:
+        perm = [int(v) for v in rng.permutation(H)]
     out, p = [], 0
     for n in nh:
         out.append(perm[p : p + n])
@@ -175,6 +183,12 @@ def _assign(desc, nh, rng):
 def _band(slot, key, frac):
     """Injective in (slot, key): slot*4096 + key + 1 + frac/64, exactly representable in float32."""
     return slot * 4096.0 + (key + 1.0) + frac / 64.0
+
+
+def remove_files(root):
+    for dp, _dn, fns in os.walk(root):
+        for fn in fns:
+            os.unlink(os.path.join(dp, fn))
 
 
 def plan(desc):
@@ -200,15 +214,19 @@ def build(desc, root):
     want_ranks = bool(desc['want_ranks'])
     veldev_1d = bool(desc.get('veldev_1d'))
     mt = uses_mt(desc)
-    sim = 'AbacusVerif_c000_ph%03d' % (int(desc['fill_seed']) % 1000)
+    sim = SIM_NAME
     ztag = 'z%4.3f' % z
 
     sim_dir = os.path.join(root, 'sim')
     sub_dir = os.path.join(root, 'subsample')
     out_dir = os.path.join(root, 'mocks')
     sdir = os.path.join(sub_dir, sim, ztag)
-    os.makedirs(sdir)
-    os.makedirs(out_dir)
+    # directories may be reused from an earlier case of the same process (rmdir is the expensive call on this
+    # file system); files never are: the caller removes every file after a case and we insist on that here
+    os.makedirs(sdir, exist_ok=True)
+    os.makedirs(out_dir, exist_ok=True)
+    if os.listdir(sdir):
+        raise RuntimeError('stale files in %s' % sdir)
 
     # ---- header ----
     Mpart = [2109081520.453063, 5.0e8, 1.0e10][int(desc.get('mpart_ix', 0)) % 3]
@@ -228,14 +246,17 @@ def build(desc, root):
 
     if halo_lc:
         hdir = os.path.join(sim_dir, sim, ztag)
-        os.makedirs(hdir)
+        os.makedirs(hdir, exist_ok=True)
         fns = [os.path.join(hdir, 'lc_halo_info.asdf')]
     else:
         hdir = os.path.join(sim_dir, sim, 'halos', ztag, 'halo_info')
-        os.makedirs(hdir)
+        os.makedirs(hdir, exist_ok=True)
+        if os.listdir(hdir):
+            raise RuntimeError('stale files in %s' % hdir)
         fns = [os.path.join(hdir, 'halo_info_%03d.asdf' % s) for s in range(ns)]
-    for fn in fns:
-        asdf.AsdfFile({'header': dict(header), 'data': {}}).write_to(fn)
+    asdf.AsdfFile({'header': dict(header), 'data': {}}).write_to(fns[0])
+    for fn in fns[1:]:  # identical headers: staging() reads whichever file the directory listing returns first
+        shutil.copyfile(fns[0], fn)
 
     # ---- halos ----
     frac = rng.integers(0, 64, size=(H, 24))  # per (key, attribute) noise in 1/64 units
